@@ -162,6 +162,37 @@ def build_input(rng, kind, kind2=None):
             term = term * t2 * NonSymmetricTensor("g2", tuple(get_symbols(n2)))
         e = Expr(term, real=True, target_idx=T)
         return e, f"product:{name}"
+    if kind == "long":
+        # a long intermediate (several terms) times an ERI with shared indices, like the
+        # repository's own factorisation tests; used with rescaled terms (mixed prefactors)
+        name = rng.choice(["t2_2", "t2_2", "t1_2", "p0_2_oo", "p0_2_vv"])
+        it = avail[name]
+        pool_o, pool_v = list("ijklmn"), list("abcdef")
+        rng.shuffle(pool_o)
+        rng.shuffle(pool_v)
+        names = [pool_o.pop() if x in "ijklmno" else pool_v.pop() for x in it.default_idx]
+        tens = it.tensor(indices=names, return_sympy=True)
+        syms = get_symbols(names)
+        occ = [s_ for s_ in syms if s_.space == "occ"]
+        virt = [s_ for s_ in syms if s_.space == "virt"]
+        # ERI: shares the occupied (or virtual) indices of the intermediate
+        share = rng.choice(["occ", "virt", "none"])
+        if share == "occ" and len(occ) == 2:
+            v = AntiSymmetricTensor("V", tuple(occ), (_sym(pool_v.pop()), _sym(pool_v.pop())), 1)
+        elif share == "virt" and len(virt) == 2:
+            v = AntiSymmetricTensor("V", (_sym(pool_o.pop()), _sym(pool_o.pop())), tuple(virt), 1)
+        else:
+            v = AntiSymmetricTensor("V", (_sym(pool_o.pop()), _sym(pool_o.pop())),
+                                    (_sym(pool_v.pop()), _sym(pool_v.pop())), 1)
+        term = tens * v * rng.choice([1, Rational(1, 2), -1])
+        from adcgen.indices import Index
+        cnt = {}
+        for o_ in (tens, v):
+            for s_ in o_.atoms(Index):
+                cnt[s_] = cnt.get(s_, 0) + 1
+        T = sorted([s_ for s_, c_ in cnt.items() if c_ == 1], key=lambda s_: s_.name)
+        e = Expr(term, real=True, target_idx=T)
+        return e, f"long:{name}"
     if kind == "lib":
         from adcgen import Operators, GroundState, IntermediateStates, SecularMatrix
         gs = GroundState(Operators("mp"))
@@ -208,9 +239,21 @@ def run_case(item):
             ex = e.copy().expand_intermediates(fully_expand=True)
             names = rng.choice([None, ["t_amplitude"], ["t2_1"], ["t2_1", "t1_2", "t2_2"],
                                 ["t2_1", "mp_density"], ["t_amplitude", "mp_density"]])
+            if kind == "long":
+                names = rng.choice([[tag.split(":")[1]], ["t2_1", tag.split(":")[1]], None])
             mo = rng.choice([None, 1, 2, 3])
+            if (rng.random() < 0.45 or kind == "long") and len(ex) > 1:
+                # mixed prefactors: rescale one or two terms of the expanded expression, so that
+                # a long intermediate can only be factored by adding compensating terms
+                tl = list(ex.terms)
+                picks = rng.sample(range(len(tl)), min(len(tl), rng.choice([1, 1, 2])))
+                new = S.Zero
+                for q, t in enumerate(tl):
+                    new += t.sympy * (rng.choice([2, 3, Rational(1, 2), Rational(3, 2), -1]) if q in picks else 1)
+                ex = Expr(new, **ex.assumptions)
+                res["mixed"] = True
             out = factor_intermediates(ex.copy(), names, mo)
-            res["op"] = f"factor_intermediates(expanded, {names}, max_order={mo})"
+            res["op"] = f"factor_intermediates(expanded{' with rescaled terms' if res.get('mixed') else ''}, {names}, max_order={mo})"
             res["in"] = str(ex)[:400]
             A = ex.sympy
         elif op == "reduce":
@@ -255,6 +298,8 @@ def main():
         items.append(("product", ["expand", "factor", "reduce"][k % 3], base + k))
     for k in range(10 if quick else 60):
         items.append(("lib", ["expand", "factor", "reduce"][k % 3], base + 5000 + k))
+    for k in range(24 if quick else 300):
+        items.append(("long", "factor", base + 7000 + k))
     results = pmap(run_case, items, limit=90 if quick else 1200, workers=15)
     for r in results:
         if r.get("status") == "timeout":
